@@ -237,7 +237,13 @@ def pred_c06(prog, ob, crashed=False):
             below = [g for (f2, g), v in state.items() if f2 == fmn and v == "in" and g != frn
                      and frn in head_of(fms0[fmn], g)[:-1]]
             if below:
-                if any(v for v in suspended.values()):
+                # the known defect also occurs inside an auxiliary framer (which has no send log): it needs a
+                # conditional-auxiliary clause on the exiting frame or on a frame between it and the frames left
+                chain = set([frn])
+                for g in below:
+                    chain.update(head_of(fms0[fmn], g))
+                has_cond = any(pa[0] == "aux" for g in chain for pa in fr_by_name(fms0[fmn])[g].get("preacts", []))
+                if any(v for v in suspended.values()) or has_cond:
                     return ("suspended-frames-not-exited",
                             "tick %d: frame %s.%s exited while %r below it are still entered (frames suspended under a "
                             "conditional aux are not exited)" % (tk, fmn, frn, below))
@@ -639,9 +645,11 @@ def pred_c09_done(prog, ob):
     return None
 
 
-def pred_c09_order(prog, ob):
+def pred_c09_order(prog, ob, crashed=False):
     """within one segue of a framer, every plain auxiliary of its active frames makes its transitions before
     any frame of the framer evaluates its own transition / conditional-auxiliary clauses"""
+    if crashed:
+        return None     # an injected fault unwinds segues half-way: the order statement is about fault-free runs
     orc = ob.get("oracle", [])
     stack = []          # [framer, own clause evaluated?]
     i = 0
@@ -663,10 +671,12 @@ def pred_c09_order(prog, ob):
     return None
 
 
-def pred_c11_const(prog, ob):
+def pred_c11_const(prog, ob, crashed=False):
     """whenever a transition condition is evaluated during a run of framer M (by M itself or by one of its
     auxiliaries), M's elapsed and recurred are the values of THIS run: they do not change between the start
     of M's segue and M's first taken transition / the end of the segue"""
+    if crashed:
+        return None
     orc = ob.get("oracle", [])
     stack = []          # [framer, [(elapsed, recurred, where)], frozen?]
     for e in orc:
@@ -975,7 +985,7 @@ def kernel_check(ctx, pid, runs, preds, rule, extra_assumptions=(), corpus=(), e
             continue
         for pr in preds:
             f = PREDS[pr]
-            res = f(p, ob, crashed=ca) if pr in ("C03", "C06", "C03e") else f(p, ob)
+            res = f(p, ob, crashed=ca) if "crashed" in f.__code__.co_varnames[:f.__code__.co_argcount] else f(p, ob)
             if res:
                 key, why = res
                 key = "%s:%s" % (pr, key)
